@@ -1,7 +1,7 @@
 """Manifest metadata (tools/gen_manifest.py turns it into MANIFEST.json)."""
 HOOK_COMMITS = []
 ENGINES = [
-    dict(name='verus-extract', path='/verif/vlib', serves_properties=['C04', 'C05', 'C06', 'C12', 'C14', 'C15'],
+    dict(name='verus-extract', path='/verif/vlib', serves_properties=['C04', 'C05', 'C06', 'C08', 'C12', 'C14', 'C15'],
          kind_free_text='Verus 0.2026.09.13 on functions extracted mechanically from /repo on every run, contracts injected from /verif/units/<unit>/unit.rs'),
     dict(name='kani-contracts', path='/verif/kani', serves_properties=['C01', 'C02', 'C03', 'C06', 'C15'],
          kind_free_text='Kani 0.68 function contracts (proof_for_contract) and loop-free full-domain harnesses on the real crates of /repo (path dependencies), CBMC 6.11'),
@@ -13,6 +13,12 @@ NOT_APPLICABLE = {
     'C13': 'bus state is BTreeMap+VecDeque behind Rc<RefCell> driven by std iterator closures: no Verus model, Kani measured >10 min for 2 outputs x 2 ops (DESIGN.md §7)',
 }
 CHECKS = {
+    'C08': dict(
+        engine='verus-extract', category='proof',
+        technique='Verus over idealised real arithmetic (float_as_real axioms): Converter::next loop invariant, Interpolator trait contract, position lemmas',
+        text='Converter::next is verified (extracted text) to pull exactly floor(v) source frames, feed them to the interpolator in order, evaluate it at v - floor(v) and advance v by the ratio in effect; is_exhausted <=> source exhausted and v >= 1. lemma_position_step shows the invariant pulled + v == P_n, hence pulled == floor(P_n) and fraction P_n - floor(P_n), no frame skipped or re-read; MulHz consumes exactly one control frame per output; Floor yields the latest frame, Linear the per-channel blend l + (r - l) x which stays between l and r for 0 <= x < 1 and equals l at x == 0; ratio exactly 1 pulls one frame per output at fraction 0.',
+        note='PROVED OVER EXACT REALS (T4): float rounding of the accumulator is outside the claim. Termination of the pull loop unchecked (T8). The closed-form output count is not claimed. Frame/Sample operation contracts assumed (C03).',
+    ),
     'C03': dict(
         engine='kani-contracts', category='proof',
         technique='Kani full-domain harnesses per sample format; per-N harnesses for [S; N] with recording closures (observable call sequence) and unwinding assertions',
